@@ -199,6 +199,37 @@ def run_adhist(tape, out):
         v = np.concatenate([np.atleast_2d(obs[s]) for s in spec['sums']], axis=1)
         rounds = tape.int('rounds', 1, 4)
         rs = np.random.RandomState(tape.int('data_seed', 0, 9999))
+        # a bystander: a second, unrelated model with its own AdaptiveDistance (same column
+        # layout) that is alive and busy while the node under test has a round open; what
+        # happens to one node must not leak into the other
+        by = None
+        if tape.chance('bystander_adaptive_node', 1, 3):
+            _, by_model, _ = adaptive_model(elfi, tape, list(widths))
+            by = {'node': by_model['d'], 'rs': np.random.RandomState(4242), 'models': [by_model]}
+            out.probes['bystander_adaptive_node'] += 1
+
+        def bystander_step():
+            if by is None or not tape.chance('bystander_acts', 1, 2):
+                return
+            what = tape.choice('bystander_op', ['add_data', 'add_data', 'init_round', 'update',
+                                                'new_node', 'init_state'])
+            bn = by['node']
+            if what == 'add_data':
+                k = tape.int('bystander_rows', 1, 6)
+                bn.add_data(*[100.0 * by['rs'].normal(loc=5.0, size=(k,) + ((w,) if w > 1 else ()))
+                              for w in widths])
+            elif what == 'init_round':
+                bn.init_adaptation_round()
+            elif what == 'update':
+                if bn.state['store'][0]:
+                    bn.update_distance()
+            elif what == 'init_state':
+                bn.init_state()
+            else:
+                _, m2, _ = adaptive_model(elfi, tape, list(widths))
+                by['models'].append(m2)
+                by['node'] = m2['d']
+            out.probes['bystander_' + what] += 1
         probe_n = tape.choice('probe_rows', [3, 1, 2, 5])     # batch size 1 included
         probe = {s: (rs.normal(size=(probe_n,) + ((w,) if w > 1 else ())) * (1 + j)
                      * spec['gains'][j])
@@ -259,7 +290,9 @@ def run_adhist(tape, out):
                 sizes = [b - a for a, b in zip(cuts, cuts[1:])]
                 shapes.append(tuple(sizes))
                 for a, b in zip(cuts, cuts[1:]):
+                    bystander_step()
                     node.add_data(*[d_[a:b] for d_ in data])
+                bystander_step()
                 full = np.column_stack(data)
                 exp_scale = full.std(axis=0)
                 got_scale = np.asarray(node.state['scale'])
